@@ -968,11 +968,15 @@ def shrink_case(case, pred):
     return cur
 
 
+# the type of a case, spelled out: a shard whose cases all have empty stores / file lists would leave `[]` untypable
+CASE_TYPE = ") : ostore * list op * list wcall * ostore * list op * bool * Z)"
+
+
 def case_term(case, res):
     b = "true" if case["override"] else "false"
-    return ("(" + ", ".join([res["terms"][0], coq_fops(case["files"]), coq_list(coq_call(c) for c in res["calls_eff"]),
+    return ("((" + ", ".join([res["terms"][0], coq_fops(case["files"]), coq_list(coq_call(c) for c in res["calls_eff"]),
                              res["terms"][1], coq_fops(case["F0"]), b,
-                             coq_z(common.zhash_d(res["obs"], 2))]) + ")")
+                             coq_z(common.zhash_d(res["obs"], 2))]) + CASE_TYPE)
 
 
 def case_terms(case, res):
@@ -981,9 +985,9 @@ def case_terms(case, res):
     sec = res.get("second")
     if sec is not None and "obs" in sec:
         b = "true" if case["override"] else "false"
-        ts.append("(" + ", ".join([res["terms"][0], coq_fops(case["files"]),
+        ts.append("((" + ", ".join([res["terms"][0], coq_fops(case["files"]),
                                    coq_list(coq_call(c) for c in res["calls_eff"]), sec["term"],
-                                   coq_fops(case.get("F0b", [])), b, coq_z(common.zhash_d(sec["obs"], 2))]) + ")")
+                                   coq_fops(case.get("F0b", [])), b, coq_z(common.zhash_d(sec["obs"], 2))]) + CASE_TYPE)
     return ts
 
 
